@@ -64,7 +64,7 @@ async def one(cfg):
         ev.append(('task_end',)); return ('ret', x)
     if cfg['async_target']:
         async def t(x, d=TaskiqDepends(dep_gen)):
-            if outcome == 'timeout':
+            if outcome in ('timeout', 'timeout0'):
                 ev.append(('task_start', x, d))
                 try: await asyncio.sleep(5)
                 finally: ev.append(('task_end',))
@@ -74,7 +74,8 @@ async def one(cfg):
     b.register_task(t, task_name='t')
     labels = {'lbl': 7}
     if outcome == 'timeout': labels['timeout'] = 0.05
-    msg = TaskiqMessage(task_id='id-1', task_name='t', labels=labels, labels_types=None, args=[41], kwargs={})
+    if outcome == 'timeout0': labels['timeout'] = 0
+    msg = TaskiqMessage(task_id='id-1', task_name='t', labels=labels, labels_types={'timeout': 2} if outcome == 'timeout0' else None, args=[41], kwargs={})
     data = b.formatter.dumps(msg).message
     if cfg['ack_async']:
         async def ack(): ev.append(('ack',))
@@ -107,11 +108,27 @@ async def isolation(shape):
         yield ctx.message.task_id
     def nested(inner: str = TaskiqDepends(echo, use_cache=False)) -> str: return inner
     dep = {'uncached': TaskiqDepends(echo, use_cache=False), 'cached': TaskiqDepends(echo), 'async_uncached': TaskiqDepends(aecho, use_cache=False),
-           'generator_uncached': TaskiqDepends(gecho, use_cache=False), 'nested_uncached': TaskiqDepends(nested, use_cache=False)}[shape]
-    async def t(mid: str, first: int = TaskiqDepends(slow), probe: str = dep, ctx: Context = TaskiqDepends()):
+           'generator_uncached': TaskiqDepends(gecho, use_cache=False), 'nested_uncached': TaskiqDepends(nested, use_cache=False)}.get(shape)
+    if shape in ('override', 'ctx_only_nested'):
+        def plain() -> str: return 'plain'
+        async def replacement(_: int = TaskiqDepends(slow), seen_id: str = TaskiqDepends(echo, use_cache=False)) -> str: return seen_id
+        if shape == 'override':
+            async def t(mid: str, probe: str = TaskiqDepends(plain)):
+                seen[mid] = (probe, mid, mid)
+            b.dependency_overrides[plain] = replacement
+        else:
+            async def t(mid: str, first: int = TaskiqDepends(slow), probe: str = TaskiqDepends(echo, use_cache=False)):       # Context only reachable through an un-cached dependency
+                seen[mid] = (probe, mid, mid)
+            async def other(ctx: Context = TaskiqDepends()): await asyncio.sleep(0.2)
+            b.register_task(other, task_name='other')
+    else:
+      async def t(mid: str, first: int = TaskiqDepends(slow), probe: str = dep, ctx: Context = TaskiqDepends()):
         seen[mid] = (probe, ctx.message.task_id, dict(ctx.message.labels).get('who'))
     b.register_task(t, task_name='t')
     r = Receiver(b, run_startup=False, max_async_tasks=5)
+    if shape == 'ctx_only_nested':
+        asyncio.ensure_future(r.callback(b.formatter.dumps(TaskiqMessage(task_id='Z', task_name='other', labels={}, labels_types=None, args=[], kwargs={})).message))
+        await asyncio.sleep(0.005)
     def msg(i): return b.formatter.dumps(TaskiqMessage(task_id=i, task_name='t', labels={'who': i}, labels_types=None, args=[i], kwargs={})).message
     async def later(): await asyncio.sleep(0.01); await r.callback(msg('B'))
     await asyncio.gather(r.callback(msg('A')), later())
@@ -124,16 +141,19 @@ def monitor(cfg, ev, raised):
     def idx(n): return names.index(n) if n in names else None
     def last(n): return max((i for i, x in enumerate(names) if x == n), default=None)
     oc = cfg['outcome']
+    zero = oc == 'timeout0'; oc = 'timeout' if zero else oc          # a zero budget: the function may be cancelled before it starts
     if raised: f.append(f"callback raised {raised}")
     # C01: exactly one invocation
-    if names.count('task_start') != 1: f.append(f"C01: task function invoked {names.count('task_start')} times")
+    if names.count('task_start') != 1 and not (zero and names.count('task_start') == 0): f.append(f"C01: task function invoked {names.count('task_start')} times")
     # C02
     acks = names.count('ack')
     if acks != (1 if cfg['ackable'] else 0): f.append(f"C02: ack called {acks} times (ackable={cfg['ackable']})")
     elif acks == 1:
         a = idx('ack')
         if cfg['ack_time'] == 0 and idx('task_start') is not None and a > idx('task_start'): f.append("C02: when_received ack after the task function started")
-        if cfg['ack_time'] == 1 and (idx('task_end') is None or a < idx('task_end')): f.append("C02: when_executed ack before the task function finished")
+        never_started = zero and idx('task_start') is None          # timed out before it could start: 'finished (timed out)' with no function events
+        if cfg['ack_time'] == 1 and not never_started and (idx('task_end') is None or a < idx('task_end')): f.append("C02: when_executed ack before the task function finished")
+        if cfg['ack_time'] == 1 and never_started and idx('on_error') is not None and a > idx('post_execute'): f.append("C02: when_executed ack after post_execute")
         if cfg['ack_time'] == 2:
             if oc == 'noresult':
                 if last('post_execute') is None or a < last('post_execute'): f.append("C02: when_saved ack before the (skipped) save point")
@@ -185,16 +205,16 @@ def run(sc):
     for ack_time in acks:
         for ackable in ackables:
             for ack_async in ([sc['ack_async']] if isinstance(sc.get('ack_async'), bool) else [False, True]):
-                for outcome in ('return', 'raise', 'base', 'noresult', 'timeout'):
+                for outcome in ('return', 'raise', 'base', 'noresult', 'timeout', 'timeout0'):
                     for backend_fails in (False, True):
                         for async_target in (True, False):
-                            if outcome == 'timeout' and not async_target: continue
+                            if outcome in ('timeout', 'timeout0') and not async_target: continue
                             for propagate in (True, False):
                                 cfg = dict(ack_time=ack_time, ackable=ackable, ack_async=ack_async, outcome=outcome, backend_fails=backend_fails, async_target=async_target, propagate=propagate)
                                 ev, raised = asyncio.run(one(cfg)); n += 1
                                 fl = monitor(cfg, ev, raised)
                                 if fl: fails.append({'key': json.dumps(cfg, sort_keys=True), 'config': cfg, 'failed_clauses': fl, 'trace': [list(map(str, e)) for e in ev]})
-    for shape in ('uncached', 'cached', 'async_uncached', 'generator_uncached', 'nested_uncached'):
+    for shape in ('uncached', 'cached', 'async_uncached', 'generator_uncached', 'nested_uncached', 'override', 'ctx_only_nested'):
         bad, seen = asyncio.run(isolation(shape)); n += 1
         if bad or len(seen) != 2: fails.append({'key': 'isolation:' + shape, 'config': {'overlapping_messages': ['A', 'B'], 'dependency': shape},
                                 'failed_clauses': [f"C06: execution of message {mid} observed (dependency value, Context.task_id, label) = {v}" for mid, v in bad.items()] or ["C06: an execution did not complete"], 'trace': [str(seen)]})
